@@ -393,6 +393,7 @@ pub fn gen_check(rng: &mut Rng, apps: &[AppSpec], path: Path, cup: bool, cohorts
                     cs.reboot_needed = rng.bool();
                     if cs.reboot_needed {
                         label.push_str("+rb");
+                        cs.reboot_fails = rng.chance(1, 6);
                     }
                 }
             }
